@@ -42,8 +42,9 @@ static std::string handle(const std::vector<std::string>& a) {
       std::string ftxt = unhex(a[2]);
       deserializeJson(fdoc, ftxt.c_str(), ftxt.size(), DeserializationOption::NestingLimit(50));
       JsonVariantConst fv = fdoc.as<JsonVariantConst>();
-      err = deserializeJson(doc, rd, DeserializationOption::Filter(fv),
-                            DeserializationOption::NestingLimit((uint8_t)L));
+      // the two options in either order (chosen from the input's length): the order means nothing
+      err = (input.size() & 1) ? deserializeJson(doc, rd, DeserializationOption::NestingLimit((uint8_t)L), DeserializationOption::Filter(fv))
+                               : deserializeJson(doc, rd, DeserializationOption::Filter(fv), DeserializationOption::NestingLimit((uint8_t)L));
     }
     return std::string(codeName(err)) + " " + std::to_string(rd.reads) + " " +
            (rd.fault ? "FAULT" : "ok") + " " + dump(doc.as<JsonVariantConst>());
